@@ -14,7 +14,8 @@ theorem lock_scopes : Gen.sendLoopUnderLock = true ∧ Gen.recvUnderReadlock = t
 
 /-- … and "the default thread-safe configuration": both ways of building the object — `WebSocket()` and the documented
     factory `create_connection()` — install real locks unless the caller says otherwise (generated from the defaults). -/
-theorem locks_by_default : Gen.multithreadDefaultInit = true ∧ Gen.multithreadDefaultFactory = true := by
+theorem locks_by_default : Gen.multithreadDefaultInit = true ∧ Gen.multithreadDefaultFactory = true ∧
+    Gen.appSockMultithread = true := by
   decide
 
 /-- **C12_short_writes** — however the transport accepts bytes (any cyclic pattern of accepted sizes, each
